@@ -25,8 +25,20 @@ def gen_case(rng, tier):
             "rseed": rng.randint(0, 2**30), "paths": [list(p) for p in gfi.pick_subset(rng, paths)], "cfg": "eager"}]
     n = rng.randint(4, 10) if tier == "quick" else rng.randint(8, 24)
     for _ in range(n):
-        if faulty and rng.random() < 0.15:
-            ops.append(tm.gen_fault(rng, model))
+        if faulty and rng.random() < 0.2:
+            f = tm.gen_fault(rng, model)
+            ops.append(f)
+            if f["kind"] == "exc_site" and rng.random() < 0.8:
+                # after a call that failed part-way: move to another trace, then use the same interface again
+                # (whatever the failed call left behind must not leak into an operation on a different trace)
+                ops.append({"op": "regenerate", "sel": {"t": "all"}, "key": rng.randint(0, 2**30), "h": None, "cfg": "eager"})
+                m = f.get("method")
+                if m == "regenerate":
+                    ops.append({"op": "regenerate", "sel": selections.gen_sel(rng, paths, depth=1), "key": rng.randint(0, 2**30),
+                                "h": None, "cfg": "eager"})
+                else:
+                    ops.append({"op": "update", "h": None, "paths": [list(p) for p in gfi.pick_subset(rng, paths, "one")],
+                                "rseed": rng.randint(0, 2**30), "api": "gf", "cfg": "eager", "roundtrip": False})
             continue
         k = rng.choice(["update", "update", "regenerate", "regenerate", "mh", "mh", "mala", "hmc",
                         "jit_roundtrip", "vectorise", "telescope", "fork", "checkout"])
